@@ -325,7 +325,7 @@ def run_bounded(rep: Report, tier: str) -> None:
     )
     viols = H.run_histories(
         rep, tier, pid="C04", module=MODULE, checker=Checker, sizes="primes", with_write=True,
-        quick_budget_s=130, nsamp_quick=320, nsamp_thorough=6000, seed_value=seed(), pmap=pmap, deadline=deadline,
+        quick_budget_s=200, nsamp_quick=320, nsamp_thorough=6000, seed_value=seed(), pmap=pmap, deadline=deadline,
     )
 
     # ---- slice then unslice in every order --------------------------------
@@ -333,7 +333,7 @@ def run_bounded(rep: Report, tier: str) -> None:
     preps = ["contracted", "annealed"] if quick else ["fresh", "stats", "contracted", "sorted+contracted", "annealed"]
     items = [(ci, prep, wp) for ci in range(len(cases)) for prep in preps for wp in (False, True)]
     items.sort(key=lambda it: (-len(H.all_indices(cases[it[0]])), it))
-    _SCTX = {"cases": cases, "deadline": deadline(tier, 60, 900)}
+    _SCTX = {"cases": cases, "deadline": deadline(tier, 120, 900)}
     n0 = rep.evaluations
     t_out = 0
     for status, r in pmap(work_slice_unslice, items, chunk=1):
